@@ -695,6 +695,7 @@ def verify_late_throw_exemptions(rep, idx, rid='R4'):
     from . import c05 as _c05
     rev = {v: k for k, v in toks.items()}
     bad = []
+    unknown_sites = []
     n_sites = 0
     for f in idx.all_funcs():
         if f.body is None or f.node.get('isImplicit'):
@@ -706,11 +707,28 @@ def verify_late_throw_exemptions(rep, idx, rid='R4'):
             args = cast.call_args(c)
             tok_args = [a for a in args if 'Token' in (dqt_all(a))]
             tokv = cast.const_int(tok_args[0], idx) if tok_args else None
-            mn = [rev.get(tokv)] if tokv is not None else _c05._enclosing_case_tokens(idx, f, c, rev)
+            if tokv is not None:
+                mn = [rev.get(tokv)]
+            else:
+                # a token variable: the case labels around the site bound it only when it is the value the switch dispatches on
+                from .. import robust as _rb
+                par_ = {}
+                for a_ in walk(f.body):
+                    for b_ in children(a_):
+                        par_[id(b_)] = a_
+                if tok_args and _rb._is_switch_subject(idx, tok_args[0], c, par_):
+                    mn = _c05._enclosing_case_tokens(idx, f, c, rev)
+                else:
+                    unknown_sites.append('%s at %s' % (f.qname, pos(c)))
+                    mn = []
             for m in mn:
                 n_sites += 1
                 if m not in accepted and 'InstrStackOffset' not in qt(c):
                     bad.append('%s constructs an instruction with token %s at %s' % (f.qname, m, pos(c)))
+    if unknown_sites and not bad:
+        rep.undecided(rid, 'exemption-holds:hexasm::tokenToInstr', 'instructions are constructed with a token this rule cannot bound (%s): whether '
+                      'tokenToInstr has a case for it is not decided' % '; '.join(unknown_sites[:3]), pos(f_ins.node) + ' hexasm::tokenToInstr')
+        return
     rep.add(rid, 'exemption-holds:hexasm::tokenToInstr', not bad and n_sites >= 20, pos(f_ins.node) + ' hexasm::tokenToInstr',
             '; '.join(bad)[:600] if bad else '%d (construction site, mnemonic) pairs, all have a case in tokenToInstr' % n_sites)
 
